@@ -104,6 +104,9 @@ def builtin(I, n, args, kw, st, node):
         r = I.arr(st, a)
         if r is not None:
             return r.length
+        from .interp import MaskedV
+        if isinstance(a, MaskedV):
+            return I.count_mask(a.mask, st, node)
         raise ToolLimit("len(%r)" % (a,))
     if n == "range":
         if len(args) == 1:
